@@ -266,6 +266,60 @@ func rulePrecisionZero(w *World, r *RuleResult) {
 			okAll = false
 		}
 	}
+	if !okAll && len(divs) > 0 {
+		// path form of the same statement (the two tests may be one short-circuit case of a switch, whose
+		// false side is a disjunction no dominating guard expresses): no path through a division site takes
+		// both the disable==true and the Precision==0 decision
+		if paths, enumerable := enumPaths(f, 8192); enumerable {
+			viol := false
+			for _, p := range paths {
+				through := false
+				for _, b := range p.Blocks {
+					for _, d := range divs {
+						if b == d.Block() {
+							through = true
+						}
+					}
+				}
+				if !through {
+					continue
+				}
+				dis, prec, feasible := false, false, true
+				for _, d := range p.Decisions {
+					c := phiOnPath(d.Cond, p)
+					val := d.Val
+					for {
+						u, isU := c.(*ssa.UnOp)
+						if !isU || u.Op != token.NOT {
+							break
+						}
+						c, val = u.X, !val
+					}
+					switch x := c.(type) {
+					case *ssa.Const:
+						if x.Value != nil && boolConst(x) != val {
+							feasible = false
+						}
+					case *ssa.Parameter:
+						if x == f.Params[pi] && val {
+							dis = true
+						}
+					case *ssa.BinOp:
+						lv := w.exprOf(f, x).leaves()
+						if lv["c.Precision"] && lv["const:0"] && (x.Op == token.EQL && val || x.Op == token.NEQ && !val) {
+							prec = true
+						}
+					}
+				}
+				if feasible && dis && prec {
+					viol = true
+				}
+			}
+			if !viol {
+				okAll = true
+			}
+		}
+	}
 	if okAll {
 		r.ok(key, w.pos(f.Pos()), "the edge disableIfPrecisionZero ∧ c.Precision==0 returns through setExponent only; no division is reachable from it", true)
 	} else {
